@@ -148,7 +148,44 @@ type timer struct {
 
 // advance moves the clock forward by d and fires due timers (in creation order).
 func (r *Run) advance(d *Term) {
-	r.nowT = tBVBin("bvadd", r.nowT, d)
+	target := tBVBin("bvadd", r.nowT, d)
+	// With concrete times the clock moves from one due instant to the next (letting the woken
+	// goroutines run in between, so that timers they create are relative to that instant and not to
+	// the end of the step). With symbolic times it jumps (the lemmas that use symbolic amounts
+	// advance by exactly the amounts they reason about).
+	if r.nowT.Const && target.Const {
+		for iter := 0; iter < 100000; iter++ {
+			var next *Term
+			consider := func(due *Term) {
+				if due == nil || !due.Const {
+					return
+				}
+				if due.Signed() > r.nowT.Signed() && due.Signed() < target.Signed() {
+					if next == nil || due.Signed() < next.Signed() {
+						next = due
+					}
+				}
+			}
+			for _, t := range r.timers {
+				if t.stopped || (t.fired && t.period == nil) {
+					continue
+				}
+				consider(t.due)
+			}
+			for _, g := range r.sched.gs {
+				if g.state == gBlocked && g.sleepT != nil {
+					consider(g.sleepT)
+				}
+			}
+			if next == nil {
+				break
+			}
+			r.nowT = next
+			r.fireTimers()
+			r.sched.settle()
+		}
+	}
+	r.nowT = target
 	r.fireTimers()
 }
 
